@@ -7,6 +7,14 @@ claims = {
    technique="explicit-state BFS over register/close histories on the real frps against a reference allocator + stateless deviation-bounded DFS over racing registrations (controlled scheduler, virtual port table)",
    text="(a) BFS over operation sequences on the real ports.Manager with external port squatting, every step compared with a reference allocator and the used/free partition invariant; (b) BFS over sequential register/close histories of two clients (tcp, udp, tcp group; ports 0 / in range / out of range; quota 2) on the real frps, deduplicated by the canonical dump of the server tables, with the oracle 'bound = accounted = reported, inside allowPorts, reachable at the reported address, quota respected, refused requests change nothing, previous port handed back'; (c) every schedule with at most B deviations of racing registrations, close-vs-reopen (tcp and udp), server-chosen vs fixed registration of the reserved port, and a port grabbed by another process between acquisition and listen.",
    note=E1_TRUST+" Bounds: 2 clients, 3 allowed ports, history depth 4 (quick) / 5 (thorough), deviation bound 2 / 3. The OS port table is vnet (port 0 = ephemeral port outside allowPorts, EADDRINUSE when bound or squatted).", ref="5/C09"),
+ "C11": dict(level="model_checking", engine="E1",
+   technique="stateless deviation-bounded DFS over all goroutine interleavings of the real frps (controlled scheduler, virtual network and clock) with scripted client behaviours",
+   text="Every schedule with at most B deviations of user arrivals, work-connection arrivals, proxy close and session end, on four accept paths (direct listener, group listener, tcpmux vhost muxer, visitor listener) and for client behaviours {answers every request, never answers, offers a dead pooled connection, offers surplus connections}. Oracles: each user bridged to exactly one work connection announced with the right proxy name and the user's real address, or closed within userConnTimeout on the virtual clock; no work connection serves two users; advance requests = min(poolCount, maxPoolCount); pool never above capacity, surplus refused and closed; at session end every pooled or late work connection is closed; nothing is left open without a peer when a listener disappears mid hand-off.",
+   note=E1_TRUST+" Bounds: 1-2 clients, 2-3 simultaneous users, deviation bound 2 (quick) / 3 (thorough); https muxer path not driven (same vhost.Muxer code as tcpmux).", ref="5/C11"),
+ "C12": dict(level="model_checking", engine="E1",
+   technique="stateless deviation-bounded DFS over all goroutine interleavings of the real frps (controlled scheduler, virtual network)",
+   text="Every schedule with at most B deviations of: the same proxy name registered from two sessions at once; close request from a non-owner; re-login with the client's run id (once, while the old session is still registering, and two re-logins at once) followed at once by re-registration of the client's own names; session end racing with a take-over registration; concurrent fresh logins. Oracles: exactly one winner per name and the name table equals the union of the sessions' own tables; non-owner close changes nothing; after an acknowledged re-login the old control is closed, the run id maps to exactly one live session, the client's own names register at once and traffic reaches the new session; fresh run ids are distinct 16-hex strings.",
+   note=E1_TRUST+" Bounds: 2-3 clients, deviation bound 2 (quick) / 3 (thorough). Unpredictability of run ids is a property of crypto/rand and is not enumerable.", ref="5/C12"),
  "C13": dict(level="model_checking", engine="E1",
    technique="stateless deviation-bounded DFS over all goroutine interleavings of the real frps (controlled scheduler, virtual network)",
    text="Every schedule of the real server code with at most B deviations (preemptions / environment choices) from the default schedule is executed for closed scenarios of join / leave / user arrival on tcp (fixed and server-chosen port), tcpmux and http groups; oracles are taken sentence by sentence from the property (keyed membership, refused join changes nothing, live member serves, endpoint exists iff members, re-creation after last leave, rotation, no panic, clean teardown).",
